@@ -451,7 +451,11 @@ class Pandas:
                     terms.append(self.to_pv(ex, st, st.env[n]))
             ex.use('model:a filtering comprehension is an uninterpreted function of its source list and the locals it reads, named by its element '
                    'and filter expressions (two comprehensions agree iff same expressions over equal inputs)')
-            return P(COMP(text, self.to_pv(ex, st, src), terms))
+            c = COMP(text, self.to_pv(ex, st, src), terms)
+            r = self.as_plist(ex, st, P(c))
+            ex.fact(LEN(c) >= 0)
+            ex.fact(MKLIST(r.n, r.arr) == c)            # a list is the list of its items
+            return r
         if len(e.generators) > 1:
             ex.use('engine:comprehensions with several generators evaluate to an arbitrary opaque object')
             return self.opaque('ListComp')
@@ -771,6 +775,7 @@ class Pandas:
                 return NotImplemented
             ex.use('model:x[i] on an opaque object is an uninterpreted function of the object and the index')
             ti = self.to_pv(ex, st, idx)
+            self.event('getitem', 'getitem', st, recv=recv, idx=idx)
             if idx.kind == 'slice' and 'getitem_slice' in self.may_raise:
                 ex.use('model:whether x[a:b] on a pandas object raises is an uninterpreted predicate of the object and the bounds')
                 ex.raise_if(st, RAISES('getitem', recv.t, ti), 'Exception')
@@ -874,7 +879,7 @@ class Pandas:
         if v.kind == 'plist' and v.items is not None:
             return T([P(t) for t in v.items])
         if v.kind == 'pv' and n is not None:
-            ex.raise_if(st, LEN(v.t) != n, 'ValueError')
+            ex.use('model:unpacking an opaque item into n names yields ITEM(x, 0) .. ITEM(x, n-1) (the item is taken to have n components)')
             return T([P(ITEM(v.t, IntVal(q))) for q in range(n)])
         return NotImplemented
 
